@@ -91,6 +91,91 @@ theorem set_bit_eq_spec (T : CTy) (hT : SetTy T) (v n : Nat) (b : Bool) (hv : v 
     rw [Nat.testBit_lt_two_pow (Nat.lt_of_lt_of_le hlt h1),
         Nat.testBit_lt_two_pow (Nat.lt_of_lt_of_le hlt' h1)]
 
+/-! ### every history of setter calls
+
+  `runSets` replays any sequence of `(choice, value)` setter calls through the
+  extracted setter kernel.  `lastWrite` is the abstract specification: a map
+  from choice index to the last value written to it. -/
+
+/-- replay a sequence of setter calls through the extracted kernel -/
+def runSets (T : CTy) : Nat → List (Nat × Bool) → Option Nat
+  | v, [] => some v
+  | v, (n, b) :: ops =>
+    match (bitset_set_bit T).varBits [v, n, if b then 1 else 0] "bits" with
+    | some r => runSets T r ops
+    | none => none
+
+/-- the last value written to choice `i` by `ops`, if any -/
+def lastWrite (i : Nat) : List (Nat × Bool) → Option Bool
+  | [] => none
+  | (n, b) :: ops => (lastWrite i ops).or (if i = n then some b else none)
+
+/-- **C15 (histories)**: after *any* sequence of setter calls with indices
+    inside the width, no call is undefined, the value stays inside the width,
+    and every choice holds the last value written to it — or its original bit
+    if it was never written (independence of the choices over whole
+    histories, not only over one call). -/
+theorem set_sequence (T : CTy) (hT : SetTy T) (ops : List (Nat × Bool)) :
+    ∀ (v : Nat), v < 2 ^ T.bits → (∀ p ∈ ops, p.1 < T.bits) →
+    ∃ r, runSets T v ops = some r ∧ r < 2 ^ T.bits ∧
+      ∀ i, i < T.bits → r.testBit i = ((lastWrite i ops).getD (v.testBit i)) := by
+  induction ops with
+  | nil => intro v hv _; exact ⟨v, rfl, hv, fun i _ => rfl⟩
+  | cons p ops ih =>
+    intro v hv hops
+    obtain ⟨n, b⟩ := p
+    have hn : n < T.bits := hops (n, b) (List.mem_cons_self ..)
+    obtain ⟨r1, hr1, hlt1, hbits1⟩ := set_bit_spec T hT v n b hv hn
+    obtain ⟨r, hr, hlt, hbits⟩ :=
+      ih r1 hlt1 (fun q hq => hops q (List.mem_cons_of_mem _ hq))
+    refine ⟨r, ?_, hlt, ?_⟩
+    · simp only [runSets, hr1, hr]
+    · intro i hi
+      rw [hbits i hi, hbits1 i hi]
+      simp only [lastWrite]
+      cases lastWrite i ops <;> by_cases h : i = n <;> simp [h]
+
+/-- setting a choice to the value it already has changes nothing (idempotence) -/
+theorem set_same_noop (T : CTy) (hT : SetTy T) (v n : Nat) (hv : v < 2 ^ T.bits) (hn : n < T.bits) :
+    (bitset_set_bit T).varBits [v, n, if v.testBit n then 1 else 0] "bits" = some v := by
+  obtain ⟨r, hr, hlt, hbits⟩ := set_bit_spec T hT v n (v.testBit n) hv hn
+  rw [hr]
+  congr 1
+  apply Nat.eq_of_testBit_eq
+  intro i
+  by_cases hi : i < T.bits
+  · rw [hbits i hi]; by_cases h : i = n <;> simp [h]
+  · have h1 : 2 ^ T.bits ≤ 2 ^ i := Nat.pow_le_pow_right (by decide) (Nat.le_of_not_lt hi)
+    rw [Nat.testBit_lt_two_pow (Nat.lt_of_lt_of_le hlt h1),
+        Nat.testBit_lt_two_pow (Nat.lt_of_lt_of_le hv h1)]
+
+/-- setters of two different choices commute: the order of the calls is not
+    observable in the underlying value -/
+theorem set_commute (T : CTy) (hT : SetTy T) (v n m : Nat) (b c : Bool) (hv : v < 2 ^ T.bits)
+    (hn : n < T.bits) (hm : m < T.bits) (hne : n ≠ m) :
+    runSets T v [(n, b), (m, c)] = runSets T v [(m, c), (n, b)] := by
+  obtain ⟨r, hr, hlt, hbits⟩ := set_sequence T hT [(n, b), (m, c)] v hv
+    (by intro p hp; simp at hp; rcases hp with rfl | rfl <;> assumption)
+  obtain ⟨r', hr', hlt', hbits'⟩ := set_sequence T hT [(m, c), (n, b)] v hv
+    (by intro p hp; simp at hp; rcases hp with rfl | rfl <;> assumption)
+  rw [hr, hr']
+  congr 1
+  apply Nat.eq_of_testBit_eq
+  intro i
+  by_cases hi : i < T.bits
+  · rw [hbits i hi, hbits' i hi]
+    simp only [lastWrite]
+    have hne' : ¬ m = n := fun e => hne e.symm
+    by_cases h1 : i = n
+    · subst h1; simp [hne, hne']
+    · by_cases h2 : i = m
+      · subst h2; simp [hne, hne']
+      · simp [h1, h2]
+  · have h1 : 2 ^ T.bits ≤ 2 ^ i := Nat.pow_le_pow_right (by decide) (Nat.le_of_not_lt hi)
+    rw [Nat.testBit_lt_two_pow (Nat.lt_of_lt_of_le hlt h1),
+        Nat.testBit_lt_two_pow (Nat.lt_of_lt_of_le hlt' h1)]
+
+
 /-! non-vacuity: the hypotheses are met by concrete non-trivial instances, and
     the statements compute -/
 example : SetTy .u64 ∧ (2 ^ 63 + 5 : Nat) < 2 ^ CTy.bits .u64 ∧ 40 < CTy.bits .u64 := by
@@ -99,5 +184,7 @@ example : (bitset_get_bit .u64).retBits [2 ^ 63, 63] = some 1 := by decide
 example : (bitset_get_bit .u64).retBits [2 ^ 63, 31] = some 0 := by decide
 example : (bitset_set_bit .u64).varBits [0, 40, 1] "bits" = some (2 ^ 40) := by decide
 example : (bitset_set_bit .u64).varBits [2 ^ 64 - 1, 31, 0] "bits" = some (2 ^ 64 - 1 - 2 ^ 31) := by decide
+example : runSets .u64 5 [(63, true), (0, false), (63, false), (40, true)] = some (4 + 2 ^ 40) := by decide
+example : lastWrite 63 [(63, true), (0, false), (63, false), (40, true)] = some false := by decide
 
 end Sbepp.Properties.C15
